@@ -186,11 +186,32 @@ func foreignPeer(t *Tape, w []byte, spans []Span) ([]byte, string, int) {
 			for i := range seg {
 				seg[i] = byte(b.next())
 			}
-			if s.Len >= 4 && b.intn(3) == 0 { // NaN-looking patterns / sign bits
-				for i := range seg {
-					seg[i] = 0xFF
+			switch b.intn(8) {
+			case 0, 1:
+				if s.Len >= 4 { // NaN-looking patterns
+					for i := range seg {
+						seg[i] = 0xFF
+					}
+					seg[b.intn(len(seg))] = 0x7F
 				}
-				seg[b.intn(len(seg))] = 0x7F
+			case 2:
+				// only the sign bit set, in either byte order: -0.0 for floats, the most negative
+				// integer - values an encoder fast path for "zero" or "small" may mishandle
+				for i := range seg {
+					seg[i] = 0
+				}
+				if b.intn(2) == 0 {
+					seg[0] = 0x80
+				} else {
+					seg[len(seg)-1] = 0x80
+				}
+			case 3:
+				for i := range seg {
+					seg[i] = 0
+				}
+				if b.intn(2) == 0 {
+					seg[b.intn(len(seg))] = 1
+				}
 			}
 			changed++
 		case "computed":
